@@ -782,3 +782,40 @@ def combinator_model(facts, inner=None, depth=0, field_model=None, callees=None)
             return None
         return None
     return model
+
+
+def table(facts, f, fields=None, args=None, calls=None, callees=None, start=0):
+    """Rows of a decision table computed on the MIR of `f` (seeded propagation; helper methods evaluated in place when
+    callees(path) says so; closures of Option/Result combinators evaluated).
+      fields: {(owner, field): [values …]}    every read of that field has the row's value
+      args:   {param index (1-based): [values …]}
+      calls:  {path suffix: [values …]}      every call whose path ends so answers the row's value
+    Yields (row, sccp) with row = {"field:owner.f" | "arg:i" | "call:suffix": value}."""
+    import itertools
+    fields, args, calls = fields or {}, args or {}, calls or {}
+    keys = [("field", k) for k in fields] + [("arg", k) for k in args] + [("call", k) for k in calls]
+    doms = [fields[k] for k in fields] + [args[k] for k in args] + [calls[k] for k in calls]
+    for combo in itertools.product(*doms):
+        row = dict(zip(keys, combo))
+
+        def fm(owner, name, row=row):
+            return row.get(("field", (owner, name)))
+
+        def inner(call, argv, row=row):
+            for (kind, k), v in row.items():
+                if kind == "call" and call.path.endswith(k):
+                    return v
+            return None
+        env = {}
+        for (kind, k), v in row.items():
+            if kind == "arg" and v is not None:
+                Sccp._write(env, (k, ()), v)
+        sx = Sccp(f, call_model=combinator_model(facts, inner, field_model=fm, callees=callees), field_model=fm).run([(start, env)])
+        yield row, sx
+
+
+def ret_set(sx):
+    out = set()
+    for v in sx.ret_values.values():
+        out |= set(value_set(v))
+    return out
